@@ -473,6 +473,9 @@ def gen_host_req(rng, tmpl_syms):
     return h
 
 
+_STEP_ENV_POOL = {}
+
+
 def gen_step(rng, name, tmpl_syms, sess_syms, env_names, int_syms, float_syms, full=False):
     st = {"name": name}
     if full or rng.random() < 0.2:
@@ -494,7 +497,23 @@ def gen_step(rng, name, tmpl_syms, sess_syms, env_names, int_syms, float_syms, f
     script["actions"] = {"onRun": gen_action(rng, script_syms)}
     st["script"] = script
     if full or rng.random() < 0.35:
-        st["stepEnvironments"] = [gen_environment(rng, std_name(rng, env_names), tmpl_syms + sess_syms) for _ in range(rng.choice([1, 1, 2]))]
+        # names are unique within the step and differ from the job-level environments; OTHER steps may use the same
+        # name again (and half of the time do: env_names only ever holds the job-level names plus a pool to reuse)
+        pool = _STEP_ENV_POOL.setdefault(id(env_names), [])
+        local = set(env_names)
+        envs = []
+        for _ in range(rng.choice([1, 1, 2])):
+            reuse = [n for n in pool if n not in local]
+            if reuse and rng.random() < 0.5:
+                nm = rng.choice(reuse)
+                local.add(nm)
+            else:
+                nm = std_name(rng, local)
+                pool.append(nm)
+            envs.append(gen_environment(rng, nm, tmpl_syms + sess_syms))
+        if len(_STEP_ENV_POOL) > 64:
+            _STEP_ENV_POOL.clear()
+        st["stepEnvironments"] = envs
     if full or rng.random() < 0.4:
         st["hostRequirements"] = gen_host_req(rng, tmpl_syms)
     return st
